@@ -490,6 +490,10 @@ impl CdnClient {
 
         retry_policy
             .execute(|| async {
+                #[cfg(feature = "verif-hooks")]
+                let response =
+                    crate::verif_hooks::http_send(self.http_client.inner(), url, None).await?;
+                #[cfg(not(feature = "verif-hooks"))]
                 let response = self.http_client.inner().get(url).send().await?;
 
                 if response.status().is_success() {
